@@ -760,6 +760,15 @@ func (e *Exec) evalCall(x ECall, env *Env) Val {
 		v := arg(0)
 		h, hs := e.elemHeap(types.Typ[types.Uint8])
 		return Val{T: "(key48 " + Sel(e.get(env.st, h, hs), e.sbase(v.T)) + " " + e.soff(v.T) + " " + e.slen(v.T) + ")", S: ArrSort(SInt, SInt), Ty: types.NewArray(types.Typ[types.Uint8], 48)}
+	case "withtag":
+		// withtag(a, t): the [N+1]byte array made of the [N]byte array a followed by the byte t
+		v := arg(0)
+		if v.Ty != nil {
+			if arr, ok := v.Ty.Underlying().(*types.Array); ok {
+				return Val{T: Sto(v.T, IntLit(arr.Len()), arg(1).T), S: ArrSort(SInt, SInt), Ty: types.NewArray(arr.Elem(), arr.Len()+1)}
+			}
+		}
+		e.unsupported("withtag() of a non-array")
 	case "raw":
 		// raw(s, j): element j (absolute index) of the backing row of slice s
 		v := arg(0)
